@@ -1,1 +1,135 @@
-// placeholder
+//! C06 / C02 (kernel) — replaying a witnessed batch with the stateless verifier.
+//!
+//! Universe shape U (concrete topology, symbolic keys/values); concrete masks say which pairs
+//! exist before, which exist after, and which are touched by the batch. For every terminal of the
+//! *before* trie that receives at least one op, the honest proof verifies against the previous
+//! root, confirms every key below it exactly as the before-set says (reads), and
+//! `verify_update` over those paths returns exactly the specification's root of the after-set
+//! (which is built from scratch, independently of the previous trie).
+
+use crate::shape::*;
+use crate::symhash::*;
+use bitvec::prelude::*;
+use nomt_core::proof::{verify_update, PathUpdate};
+use nomt_core::trie::{KeyPath, LeafData, Node, ValueHash};
+
+pub struct Batch {
+    pub p: Pairs,
+    pub before: Mask,
+    pub after: Mask,
+    pub touch: Mask,
+    pub vals_after: [ValueHash; MAXK],
+}
+
+pub fn batch<U: Tree>(window: usize, before: &[bool], after: &[bool], touch: &[bool]) -> Batch {
+    let (before, after, touch) = (mk(before), mk(after), mk(touch));
+    let p = pairs::<U>(window);
+    let mut vals_after = p.vals;
+    let mut i = 0;
+    while i < p.n {
+        // untouched pairs keep their presence
+        assert!(touch[i] || before[i] == after[i]);
+        if touch[i] && after[i] {
+            vals_after[i] = kani::any();
+        }
+        i += 1;
+    }
+    Batch {
+        p,
+        before,
+        after,
+        touch,
+        vals_after,
+    }
+}
+
+/// ops below a terminal, in key order
+pub fn ops_under(b: &Batch, t: &Term) -> Vec<(KeyPath, Option<ValueHash>)> {
+    let mut ops = Vec::with_capacity(MAXK);
+    let mut j = 0;
+    while j < t.n_under {
+        let i = t.under[j];
+        if b.touch[i] {
+            ops.push((b.p.keys[i], if b.after[i] { Some(b.vals_after[i]) } else { None }));
+        }
+        j += 1;
+    }
+    ops
+}
+
+pub fn replay_batch<U: Tree>(window: usize, before: &[bool], after: &[bool], touch: &[bool], reads: bool) {
+    let b = batch::<U>(window, before, after, touch);
+    let prev_root = U::root::<SymHasher>(&b.p.keys, &b.p.vals, &b.before);
+    let mut updates: Vec<PathUpdate> = Vec::with_capacity(MAXK);
+    let mut w = Walk::new();
+    U::walk::<SymHasher, _>(&b.p.keys, &b.p.vals, &b.before, &mut w, &mut |t: &Term| {
+        let ops = ops_under(&b, t);
+        if ops.is_empty() {
+            core::mem::forget(ops);
+            return;
+        }
+        let proof = proof_of(t, &b.p.keys, &b.p.vals);
+        let lookup = lookup_key(t, &b.p.keys);
+        let res = proof.verify::<SymHasher>(lookup.view_bits::<Msb0>(), prev_root);
+        assert!(res.is_ok(), "honest witness path rejected");
+        let v = res.unwrap();
+        if reads {
+            let mut j = 0;
+            while j < t.n_under {
+                let i = t.under[j];
+                let val = v.confirm_value(&LeafData {
+                    key_path: b.p.keys[i],
+                    value_hash: b.p.vals[i],
+                });
+                let non = v.confirm_nonexistence(&b.p.keys[i]);
+                assert!(matches!(val, Ok(x) if x == b.before[i]), "read of a value not confirmed");
+                assert!(matches!(non, Ok(x) if x == !b.before[i]), "read of an absent key not confirmed");
+                j += 1;
+            }
+        }
+        updates.push(PathUpdate { inner: v, ops });
+        core::mem::forget(proof);
+    });
+    let want = U::root::<SymHasher>(&b.p.keys, &b.vals_after, &b.after);
+    let got = verify_update::<SymHasher>(prev_root, &updates);
+    assert!(matches!(got, Ok(r) if r == want), "verify_update root differs from the rebuilt root");
+    kani::cover!(got.is_ok(), "update verified");
+    core::mem::forget(updates);
+}
+
+macro_rules! rb {
+    ($name:ident, $u:ty, $w:expr, $before:expr, $after:expr, $touch:expr, $reads:expr) => {
+        #[kani::proof]
+        pub fn $name() {
+            replay_batch::<$u>($w, &$before, &$after, &$touch, $reads)
+        }
+    };
+}
+
+const T_: bool = true;
+const F_: bool = false;
+
+// insert into empty
+rb!(c06_rb_s1_insert, S1, 4, [F_], [T_], [T_], false);
+// overwrite / delete the only pair
+rb!(c06_rb_s1_overwrite, S1, 4, [T_], [T_], [T_], true);
+rb!(c06_rb_s1_delete, S1, 4, [T_], [F_], [T_], false);
+// delete of an absent key under a terminator
+rb!(c06_rb_s1_delete_absent, S1, 4, [F_], [F_], [T_], false);
+// leaf split: second key arrives next to an existing leaf (diverging at bit 0 / bit 1 / bit 2)
+rb!(c06_rb_s2d0_split, S2D0, 4, [T_, F_], [T_, T_], [F_, T_], false);
+rb!(c06_rb_s2d1_split, S2D1L, 4, [T_, F_], [T_, T_], [F_, T_], true);
+rb!(c06_rb_s2d2_split, S2D2, 4, [F_, T_], [T_, T_], [T_, F_], false);
+// collapse: delete one of two -> the survivor moves up to the root
+rb!(c06_rb_s2d1_collapse, S2D1L, 4, [T_, T_], [F_, T_], [T_, F_], false);
+rb!(c06_rb_s2d2_collapse, S2D2, 4, [T_, T_], [T_, F_], [F_, T_], false);
+// delete both -> empty
+rb!(c06_rb_s2d0_clear, S2D0, 4, [T_, T_], [F_, F_], [T_, T_], false);
+// two paths updated in one batch
+rb!(c06_rb_s2d0_both, S2D0, 4, [T_, T_], [T_, T_], [T_, T_], true);
+// three pairs: delete the lone left one, the right sub-trie moves up; insert into a sub-trie
+rb!(c06_rb_s3a_delete_left, S3A, 4, [T_, T_, T_], [F_, T_, T_], [T_, F_, F_], false);
+rb!(c06_rb_s3a_insert_mid, S3A, 4, [T_, F_, T_], [T_, T_, T_], [F_, T_, F_], false);
+rb!(c06_rb_s3b_collapse_left, S3B, 4, [T_, T_, T_], [F_, F_, T_], [T_, T_, F_], false);
+rb!(c06_rb_s3c_delete_deep, S3C, 4, [T_, T_, T_], [T_, F_, T_], [F_, T_, T_], false);
+rb!(c06_rb_s4a_mixed, S4A, 4, [T_, F_, T_, T_], [F_, T_, T_, F_], [T_, T_, F_, T_], false);
